@@ -131,6 +131,15 @@ func (w *World) Many(batch []*Rec, foreignAt int, api string) (n int, err error,
 	for i, x := range batch {
 		w.lastPut = append(w.lastPut, putRecord{X: x, Want: wants[i], Class: errClass(err), Exp: exp.Verdict, Api: api, Batch: true})
 	}
+	defer func() {
+		done := map[*Rec]bool{}
+		for _, x := range batch {
+			if !done[x] {
+				done[x] = true
+				w.hostileScramble(x)
+			}
+		}
+	}()
 	if err == nil {
 		if n != len(objs) {
 			w.fail("batch-count", api, "-", fmt.Sprintf("success but n=%d for %d objects", n, len(objs)))
@@ -199,6 +208,15 @@ func (w *World) Bulk(batch []*Rec, csize int) {
 	for range ch { // drain if the call stopped early
 	}
 	w.logf(" -> n=%d %s", n, errClass(err))
+	defer func() {
+		done := map[*Rec]bool{}
+		for _, x := range batch {
+			if !done[x] {
+				done[x] = true
+				w.hostileScramble(x)
+			}
+		}
+	}()
 	// replay on the model
 	stored := 0
 	pos := 0
